@@ -12,7 +12,7 @@ int main(int argc, char** argv)
     const std::vector<std::string> prefixes = {"", R"({"op":"add","path":"/n","value":5},)", R"({"op":"remove","path":"/b/0"},{"op":"replace","path":"/a","value":[7]},)", R"({"op":"move","from":"/c/d","path":"/b/-"},{"op":"copy","from":"/a","path":"/c/e"},)"};
     const std::vector<std::string> failing = {
         R"({"op":"frobnicate","path":"/a"})", R"({"op":"Remove","path":"/a"})", R"({"op":"","path":"/a"})", R"({"op":"ADD","path":"/z","value":1})", R"({"op":"tests","path":"/a","value":1})",
-        R"({"path":"/a","value":1})", R"({"op":"add","value":1})", R"({"op":"add","path":"/z"})", R"({"op":"replace","path":"/a"})", R"({"op":"move","path":"/z"})", R"({"op":"copy","path":"/z"})",
+        R"({"path":"/a","value":1})", R"({"op":"add","value":1})", R"({"op":"add","path":"/z"})", R"({"op":"replace","path":"/a"})", R"({"op":"replace","path":"/b"})", R"({"op":"replace","path":"/c"})", R"({"op":"replace","path":""})", R"({"op":"replace","path":"/c/d"})", R"({"op":"test","path":"/b"})", R"({"op":"add","path":"/b"})", R"({"op":"move","path":"/b"})", R"({"op":"copy","path":"/c"})", R"({"op":"move","path":"/z"})", R"({"op":"copy","path":"/z"})",
         R"({"op":"test","path":"/a","value":2})", R"({"op":"remove","path":"/zz"})", R"({"op":"replace","path":"/zz","value":1})", R"({"op":"move","from":"/zz","path":"/y"})", R"({"op":"add","path":"/b/9","value":1})", R"({"op":"add","path":"a","value":1})"};
     int bad = 0, total = 0; std::string first;
     for (auto& pre : prefixes) for (auto& f : failing) {
